@@ -57,6 +57,20 @@ func (fc fileCase) build() (*builtFile, error) {
 			return nil, err
 		}
 		b.file, b.ts = file, w.Target
+		// "exactly the records": what the intact file delivers is what the reference
+		// writer put into it
+		vals, err := readWire(file, spec.Build(w.Target))
+		if err != nil {
+			return nil, fmt.Errorf("intact file is not readable: %v", err)
+		}
+		if len(vals) != len(w.Datums) {
+			return nil, fmt.Errorf("intact file holds %d records, %d delivered", len(w.Datums), len(vals))
+		}
+		for i, v := range vals {
+			if err := agree(w.Schema, w.Datums[i], w.Target, false, v, dirRead, fmt.Sprintf("intact file, record[%d]", i)); err != nil {
+				return nil, fmt.Errorf("the intact file does not deliver the records written into it: %v", err)
+			}
+		}
 	case fc.Enc != nil:
 		file, in, err := encodeCase(*fc.Enc)
 		if err != nil {
